@@ -478,9 +478,10 @@ pub fn run(tier: Tier) -> i32 {
     let mut cli = Vec::new();
     for (wi, (dim, h)) in witnesses.iter().enumerate() {
         let layouts: Vec<(usize, u8, usize)> = if tier.is_thorough() {
-            vec![(1, 0, 0), (2, 0, 0), (2, 1, 0), (3, 1, 0), (12, 0, 0), (12, 1, 0), (2, 1, 99), (2, 1, 100), (3, 1, 101), (2, 0, 200)]
+            vec![(1, 0, 0), (2, 0, 0), (2, 1, 0), (3, 1, 0), (12, 0, 0), (12, 1, 0), (36, 1, 0), (2, 1, 99), (2, 1, 100), (3, 1, 101), (2, 0, 200)]
         } else {
-            vec![[(1, 0, 0), (2, 1, 0), (3, 1, 100), (12, 1, 0)][wi % 4]]
+            // (36 links: one validator thread and queue per link, far beyond the capacity back-off of the dispatcher)
+            vec![[(1, 0, 0), (2, 1, 0), (3, 1, 100), (12, 1, 0), (36, 1, 0)][wi % 5]]
         };
         for (links, layout, pad) in layouts {
             for (mute, ec) in [(false, false), (true, true)] {
